@@ -4,6 +4,11 @@ Correspondence: generated overload families are registered on real `Context` cha
 real decorators and `get_function_definition`), the REAL FunctionDefinition objects are serialised to
 the Lean model `Yaql.Resolve.resolve`, and generated calls go to `runner.call` and to the model:
 same overload / error class, same ordered evaluation log, same bound argument vector.
+Call histories: forests of live contexts on which overloads are registered and deleted step by step
+(same / ancestor / descendant / sibling contexts, exclusive or not), children are created and calls are made
+in between from old and new contexts; every call is compared with the rules and with the Lean model
+(`Yaql.ResolveCtx.run` / `resolveIn`, the C17 context model joined with `Resolve`) applied to the
+family AS REGISTERED AT THAT MOMENT, which the harness records from its own API calls.
 Oracle (real code alone): `resolvelib.spec_resolve`, an independent transcription of
 doc/source/extending_yaql.rst "Function resolution rules" + "single most specific match"."""
 import copy
@@ -24,7 +29,9 @@ REQUIRED_THEOREMS = [P + n for n in (
         'register_elsewhere_invisible', 'delete_elsewhere_invisible', 'family_plain')]
 TRUSTED = ['python dict/set semantics modelled as association lists',
            'resolvelib.enc_fd / enc_arg: the encoding of real FunctionDefinition and expression objects for the model',
-           'resolvelib.spec_resolve: transcription of the written rules']
+           'resolvelib.spec_resolve: transcription of the written rules',
+           'resolvelib.History: the record of what register_function / delete_function / create_child_context were told '
+           '(delete_function drops the overload and the exclusive flag of its name, as Context does - DESIGN.md K4)']
 ASSUMPTIONS = ['smart types outside the closed description (AnyOf, Chain, NotOfType, Super, Delegate converters) are not '
                'generated; yaql.iterableDicts is off',
                'argument expressions are probes that cannot raise',
@@ -341,13 +348,13 @@ def features(case, real, hist):
 def run(env, res):
     drv = env['driver']
     rng = common.make_rng(env['seed'], 'C05')
-    n_fam = 12000 if env["tier"] == "quick" else 150000
+    n_fam = 12000 if env["tier"] == "quick" else 110000
     res.rule = ('random overload families (1-4 layers, 0-4 overloads per layer, parameters positional/defaulted/keyword-only/'
                 '*/**/hidden/lazy/constant over the lattice Base>L,R>D + int/str/object/NoneType) with 3 calls each derived '
                 'from a random overload\'s signature and mutated; distinct = distinct (family, call); non-trivial = '
                 'at least two overloads and the outcome is not Unknown')
     hist = {}
-    n_hist = 4500 if env["tier"] == "quick" else 60000
+    n_hist = 4500 if env["tier"] == "quick" else 45000
     res.rule += ('; plus call histories on live Context forests (1-7 contexts): overloads of a pool of 2-6 are registered '
                  'step by step (same / ancestor / descendant / sibling contexts, some exclusively, some twice), deleted '
                  'with delete_function, children are created before and after, and calls - new ones and repeated '
@@ -473,11 +480,18 @@ def run(env, res):
 
 LEVEL_TEXT = ('Lean 4 theorems over a code-shaped model of runner.call/choose_overload/translate_args and '
               'FunctionDefinition.map_args/get_delegate: for EVERY class graph, overload family, layer chain and call the '
-              'model equals the rule-shaped specification resolveSpec (resolve_eq_spec) and its corollaries. The model is '
-              'tied to the code by running generated families on real Context chains and on the compiled model (the real '
-              'FunctionDefinition objects are what is serialised), comparing chosen overload / error class, evaluation '
-              'log and bound argument vector, and by an independent Python transcription of the written rules.')
-LEVEL_NOTE = ('trusted: Lean kernel; hand-written models Yaql/Model/Types.lean and Resolve.lean; the encoder of real '
-              'objects; the differential harness and the rules transcription. All theorems are unconditional.')
-TECHNIQUE = 'Lean 4 proof (induction over candidate lists / parameter lists) + differential testing against runner.call'
+              'model equals the rule-shaped specification resolveSpec (resolve_eq_spec) and its corollaries; on LIVE contexts '
+              '(C05Hist): a call made at any moment of any history of register_function / delete_function / '
+              'create_child_context operations resolves as the rules prescribe for the family the context chain denotes at '
+              'that moment (resolveIn_eq_spec, via C17 layers), two histories that end in the same visible family give the '
+              'same outcome (resolve_history_independent), and registrations / deletions outside the chain are invisible. '
+              'The model is tied to the code by running generated families and generated call histories on real Context '
+              'chains and on the compiled model (the real FunctionDefinition objects are what is serialised), comparing '
+              'chosen overload / error class, evaluation log and bound argument vector, and by an independent Python '
+              'transcription of the written rules.')
+LEVEL_NOTE = ('trusted: Lean kernel; hand-written models Yaql/Model/Types.lean, Resolve.lean, Context.lean, ResolveCtx.lean; '
+              'the encoder of real objects; the differential harness, its record of the registrations and the rules '
+              'transcription. All theorems are unconditional.')
+TECHNIQUE = ('Lean 4 proof (induction over candidate lists / parameter lists / context shapes) + differential testing '
+             'against runner.call, including stepwise call histories')
 DESIGN_REF = 'DESIGN.md section 5, C05'
